@@ -98,7 +98,44 @@ type (
 	C17Pair    [2]C17Node
 )
 
+// a scalar that is read from text (encoding.TextUnmarshaler) and a struct that may also be given
+// as one string "host:port" (json.Unmarshaler): user code that mapping calls while decoding
+type C17Level int
+
+func (l *C17Level) UnmarshalText(b []byte) error {
+	switch string(b) {
+	case "debug":
+		*l = 1
+	case "info":
+		*l = 2
+	case "error":
+		*l = 3
+	default:
+		return fmt.Errorf("unknown level %q", b)
+	}
+	return nil
+}
+
+type C17Endpoint struct {
+	Host string
+	Port int
+}
+
+func (e *C17Endpoint) UnmarshalJSON(b []byte) error {
+	host, port, ok := strings.Cut(strings.Trim(string(b), `"`), ":")
+	if !ok {
+		return fmt.Errorf("endpoint %q is not host:port", b)
+	}
+	n, err := strconv.Atoi(port)
+	if err != nil {
+		return err
+	}
+	e.Host, e.Port = host, n
+	return nil
+}
+
 var C17Named = map[string]reflect.Type{
+	"Level": reflect.TypeOf(C17Level(0)), "Endpoint": reflect.TypeOf(C17Endpoint{}),
 	"Node": reflect.TypeOf(C17Node{}), "Inner": reflect.TypeOf(C17Inner{}),
 	"MyInt": reflect.TypeOf(C17MyInt(0)), "MyU8": reflect.TypeOf(C17MyU8(0)), "MyStr": reflect.TypeOf(C17MyStr("")),
 	"MyF64": reflect.TypeOf(C17MyF64(0)), "MyBool": reflect.TypeOf(C17MyBool(false)),
